@@ -30,6 +30,9 @@ def gen_history(rng, dynamic=True, big=False):
     fresh_mode = rng.random() < 0.5      # refresh normals before every pass (as the force phase of the solver does)
     for _ in range(nev):
         r = rng.random()
+        if rng.random() < 0.05:
+            ev.append("OPL %d" % rng.choice([2, 2, 1, 0]))      # an operation on an edge whose two opposite nodes are linked (pinched neighbourhood)
+            continue
         if rng.random() < 0.06:
             # compaction at a chosen balance of free node and face slots: k collapses (each frees node and face slots), then j
             # splits (each takes one node slot and two face slots back), then rebase(): free nodes without free faces, free faces
@@ -75,6 +78,28 @@ def huge_case(rng):
     return dict(line=line, lmin=me * 0.5, lmax=me * 1.5, swap=0, events=ev, size=1e-5, kind="ico6")
 
 
+def pinched_case(rng):
+    """collapses on a coarse mesh create edges whose two opposite nodes are linked (non-face 3-cycles); then swaps, collapses and
+    splits are attempted exactly there, followed by a pass"""
+    size = 10 ** rng.uniform(-6, 0)
+    kind, n, f = tissue.random_mesh(rng, kinds=("icosa", "ico1", "ico1", "ico2"), size=size, aniso=rng.random() < 0.3, noise=rng.choice([0.0, 0.05]), place=0.0)
+    me = tissue.mean_edge(n, f)
+    lmin = me * 0.5; lmax = 3 * lmin
+    types = [rng.randrange(3) for _ in f]
+    ev = ["MOM %s %d" % (hx(1e-15), rng.randrange(1 << 30))]
+    for _ in range(rng.randint(2, 8)):
+        ev.append("OP 1 %d" % rng.randrange(10 ** 6))
+    for _ in range(rng.randint(2, 5)):
+        ev.append("OPL %d" % rng.choice([2, 2, 2, 1, 0]))
+        if rng.random() < 0.4:
+            ev.append("OP 1 %d" % rng.randrange(10 ** 6))
+    ev += ["FRESH", "REFINE", "REBASE", "REFINE"]
+    ct = tissue.cell_type(gid=0)
+    line = tissue.fmt_tissue(tissue.params(), [ct], [(0, n, f)]) + " R %s %s %d %d %s %d %s" % (
+        hx(lmin), hx(lmax), 1, len(types), " ".join(map(str, types)), len(ev), " ".join(ev))
+    return dict(line=line, lmin=lmin, lmax=lmax, swap=1, events=ev, size=size, kind=kind)
+
+
 def conforming_case(rng):
     """a mesh that already satisfies the band and the quality rule: a pass must leave it unchanged"""
     size = 10 ** rng.uniform(-6, 0)
@@ -111,7 +136,9 @@ def parse_states(out):
         st["freeN"] = [int(x) for x in parts[4].split()]
         st["freeF"] = [int(x) for x in parts[5].split()]
         t = parts[6].split()
-        st["trace"] = [(t[i], int(t[i + 1]), int(t[i + 2]), int(t[i + 3]), int(t[i + 4]), int(t[i + 5])) for i in range(0, len(t), 6)]
+        ctl = [(t[i], int(t[i + 1]), int(t[i + 2]), int(t[i + 3]), int(t[i + 4]), int(t[i + 5])) for i in range(0, len(t), 6)]
+        st["ctl"] = ctl                                                     # everything the hook reported, in order (incl. pop / end of the loop)
+        st["trace"] = [e for e in ctl if e[0] in ("split", "merge", "swap")]   # the completed operations
         states.append(st)
     return states
 
@@ -241,6 +268,78 @@ def replay_query(pre, trace, lmin, lmax, dynamic):
             ops.append("W %d %d 0" % (a, b))
     t.append(str(len(ops)))
     return " ".join(t + ops)
+
+
+def loop_script(ctl):
+    """the control events of one refine_mesh call -> (swaps before the loop, pops [(a, b, new, iteration, nb_edges, work_left, op)], end (iteration, nb_edges, work_left) or None)"""
+    swaps = []; pops = []; end = None; i = 0
+    while i < len(ctl) and ctl[i][0] == "swap":
+        swaps.append((ctl[i][1], ctl[i][2])); i += 1
+    while i < len(ctl):
+        ev = ctl[i]
+        if ev[0] == "pop":
+            new = 0; op = "N"
+            if i + 1 < len(ctl) and ctl[i + 1][0] in ("split", "merge") and {ctl[i + 1][1], ctl[i + 1][2]} == {ev[1], ev[2]}:
+                new = ctl[i + 1][5]; op = "S" if ctl[i + 1][0] == "split" else "M"; i += 1
+            pops.append((ev[1], ev[2], new, ev[3], ev[4], ev[5], op))
+        elif ev[0] == "end":
+            end = (ev[1], ev[2], ev[3])
+        else:
+            return None          # an operation that does not follow a pop of its edge: not a run of the loop
+        i += 1
+    return swaps, pops, end
+
+
+def loop_query(pre, ctl, lmin, lmax, dynamic):
+    ls = loop_script(ctl)
+    if ls is None or ls[2] is None:
+        return None, None
+    swaps, pops, end = ls
+    t = ["1" if dynamic else "0", hx(lmin * lmin), hx(lmax * lmax)]
+    fs = live_faces(pre)
+    t.append(str(len(fs)))
+    for f in fs:
+        t += [str(x) for x in f["tri"]] + [str(f["ty"])]
+    ln = [n for n in pre["nodes"] if n["used"]]
+    t.append(str(len(ln)))
+    for n in ln:
+        t += [str(n["id"])] + [hx(x) for x in n["p"]] + [hx(x) for x in n["m"]]
+    t.append(str(len(swaps))); t += ["%d %d" % sw for sw in swaps]
+    t.append(str(len(pops))); t += ["%d %d %d" % (a, b, new) for a, b, new, *_ in pops]
+    t.append(str(end[2]))
+    return " ".join(t), ls
+
+
+def parse_loop(line):
+    s = line.split("|")
+    h = s[0].split()
+    kind = h[0]; iter_, nops, left, nedges = [int(x) for x in h[1:5]]
+    lg = s[1].split(); log = [(int(lg[i]), int(lg[i + 1]), lg[i + 2]) for i in range(0, len(lg), 3)]
+    t = [int(x) for x in s[2].split()]
+    faces = [tuple(t[i:i + 4]) for i in range(0, len(t), 4)]
+    t = s[3].split()
+    nodes = {int(t[i]): [unhx(x) for x in t[i + 1:i + 7]] for i in range(0, len(t), 7)}
+    return dict(kind=kind, iter=iter_, nops=nops, left=left, nedges=nedges, log=log, faces=faces, nodes=nodes)
+
+
+def compare_loop(post, ls, ml, dynamic):
+    """model loop (computed decisions) vs the implementation's run of refine_mesh; None or a description"""
+    swaps, pops, end = ls
+    if ml["kind"] == "DIVERGED" or len(ml["log"]) != len(pops):
+        k = len(ml["log"])
+        at = pops[k - 1] if 0 < k <= len(pops) else None
+        return "the implementation's sequence of pops is not a run of the model loop (model stops after %d of %d pops%s)" % (k, len(pops), "" if at is None else ", at edge (%d,%d): model decision %s, implementation %s, iteration %d of %d edges" % (at[0], at[1], ml["log"][k - 1][2], at[6], at[3], at[4]))
+    for (a, b, new, it, ne, wl, op), (mi, me, md) in zip(pops, ml["log"]):
+        if (it, ne) != (mi, me):
+            return "at the pop of edge (%d,%d) the loop counters differ: implementation iteration %d, %d edges; model %d, %d" % (a, b, it, ne, mi, me)
+        if op != md:
+            return "popped edge (%d,%d): the implementation %s, the model decides %s" % (a, b, {"S": "splits", "M": "collapses", "N": "leaves it"}[op], {"S": "split", "M": "collapse", "N": "nothing", "X": "stuck"}[md])
+    threw = bool(post["exc"])
+    if threw != (ml["kind"] == "THREW"):
+        return "outcome differs: implementation %s, model %s" % ("threw " + str(post["exc"])[:60] if threw else "returned", ml["kind"])
+    if (end[0], end[1]) != (ml["iter"], ml["nedges"]):
+        return "counters after the loop differ: implementation iteration %d, %d edges; model %d, %d" % (end[0], end[1], ml["iter"], ml["nedges"])
+    return compare_replay(post, (1, ml["faces"], ml["nodes"]), dynamic)
 
 
 def parse_replay(line):
